@@ -34,6 +34,9 @@ t_u32 nondet_u32(void); t_uchar nondet_uchar(void); t_bool nondet_bool(void);
 #ifdef C26_STORE
 #define C26_NOROW
 #endif
+#ifdef C26_STORE_UNB
+#define C26_NOROW
+#endif
 #ifdef C26_ASSERT
 #define C26_NOROW
 #endif
@@ -106,6 +109,25 @@ void vec_PtAsgn__push__PtAsgn_R(struct vec_PtAsgn *self, struct PtAsgn *e) { if 
 void std_vector_FastRational__clear(x_std_vector_FastRational *self) { g_coeffs = 0; }
 void std_vector_FastRational__push_back(x_std_vector_FastRational *self, struct FastRational v) { if (g_coeffs >= 0 && g_coeffs < NV) g_cf[g_coeffs] = v; g_coeffs++; }
 __mpq_struct h_q[NV];
+#endif
+#ifdef C26_STORE_UNB
+/* LASolver::storeExplanation, unbounded in the number of entries: loop contract, one symbolic cell (ghost index g_k) */
+t_int h_n; t_int g_k; struct Simplex__ExplTerm h_cell, h_othr; __mpq_struct h_q[1];
+t_ulong std_vector_Simplex__ExplTerm__size(x_std_vector_Simplex__ExplTerm *self) { return (t_ulong)h_n; }
+struct Simplex__ExplTerm *std_vector_Simplex__ExplTerm__op_index(x_std_vector_Simplex__ExplTerm *self, t_ulong i) { __CPROVER_assert(i < (t_ulong)h_n, "explanation indexed inside its size");
+  if (i == (t_ulong)g_k) return &h_cell; h_othr.boundref.x = nondet_u32(); return &h_othr; }
+#define ASGN_TR(b) ((t_u32)((b) ^ 0x5a5a5a5au))
+struct PtAsgn LASolver__getAsgnByBound(void *self, struct LABoundRef r) { struct PtAsgn a; a.tr.x = ASGN_TR(r.x); a.sgn.value = (t_uchar)(r.x & 1); return a; }
+t_long g_lits, g_coeffs; struct PtAsgn g_lit_k; struct FastRational g_cf_k;
+void vec_PtAsgn__clear(struct vec_PtAsgn *self) { g_lits = 0; }
+void vec_PtAsgn__push__PtAsgn_R(struct vec_PtAsgn *self, struct PtAsgn *e) { if (g_lits == (t_long)g_k) g_lit_k = *e; g_lits++; }
+void std_vector_FastRational__clear(x_std_vector_FastRational *self) { g_coeffs = 0; }
+void std_vector_FastRational__push_back(x_std_vector_FastRational *self, struct FastRational v) { if (g_coeffs == (t_long)g_k) g_cf_k = v; g_coeffs++; }
+#define CELL_STORED (g_lit_k.tr.x == ASGN_TR(h_cell.boundref.x) && g_lit_k.sgn.value == (h_cell.boundref.x & 1) && g_cf_k.state == h_cell.coeff.state && g_cf_k.num == h_cell.coeff.num && g_cf_k.den == h_cell.coeff.den && g_cf_k.mpq == h_cell.coeff.mpq)
+#define OSMT_LOOP_LASolver__storeExplanation_1 \
+  __CPROVER_assigns(i, g_lits, g_coeffs, g_lit_k, g_cf_k, h_othr, OSMT_TEMPS_LASolver__storeExplanation) \
+  __CPROVER_loop_invariant(i <= (t_ulong)h_n && g_lits == (t_long)i && g_coeffs == (t_long)i && (i > (t_ulong)g_k ==> CELL_STORED)) \
+  __CPROVER_decreases((t_long)h_n - (t_long)i)
 #endif
 #ifdef C26_PIVOT
 /* pivot selection: the model-level predicates are ghost booleans per row variable */
